@@ -209,7 +209,7 @@ def explore(ctx: runner.Ctx):
             check_case(ctx, c)
     if ctx.tier == "thorough":
         ctx.mark_exhaustive("union dumper MRO sub-check: all ordered 2- and 3-subsets of 8 classes x 9 values x 2 modes")
-    ctx.given(st_case(), lambda c: check_case(ctx, c), ctx.budget(3000, 150000))
+    ctx.given(st_case(), lambda c: check_case(ctx, c), ctx.budget(6000, 200000))
 
 
 RULE = ("cases = (non-model type spec, datum | canonical value, strict, debug); datum = near-valid mutation of the reference "
